@@ -49,6 +49,7 @@ def cases(tier, rng):
         c["capture"] = [[k, a] for k, a in cap.items()]
         # some of the conditions returning awaitables return an object with __await__ instead of a coroutine
         c["awaitableObjects"] = [k for k, a in c["cond"] if ckprop.ans_kind(a) == "coro" and rng.random() < 0.5]
+        c["awaitableCaptureValues"] = [sid for sid, a in c["capture"] if sid % 2 == 0 and "val" in a]
         yield "rnd", c
     for tc in inv_cases(tier, rng):
         yield tc
